@@ -509,13 +509,24 @@ let moved total old amt =
   let r = Z.sub (Z.add (z_of_n total) (z_of_n amt)) (z_of_n old) in
   if Z.sign r < 0 || Z.gt r max128 then None else Some (n_of_z r)
 
-let is_poke line = String.length line >= 5 && String.sub line 0 5 = "poke_"
+let is_poke line =
+  (String.length line >= 5 && String.sub line 0 5 = "poke_")
+  || (String.length line >= 8 && String.sub line 0 8 = "migrate ")
 
 let apply_poke (w : world) (line : string) : world option =
   let toks = List.filter (fun s -> s <> "") (String.split_on_char ' ' line) in
   let with_hub f = match w.w_hub with None -> None | Some h -> Some { w with w_hub = Some (f h) } in
   let with_env f = Some { w with w_env = f w.w_env } in
   match toks with
+  (* `migrate C`: every migrate entry point of the contracts is `Ok(Response::new())` and is not
+     modelled (DESIGN.md 3.1): the model's reading is "an instantiated contract accepts it and
+     nothing changes" *)
+  | ["migrate"; c] ->
+      let present = (match c with
+        | "hub" -> w.w_hub <> None | "reward" -> w.w_reward <> None | "disp" -> w.w_disp <> None
+        | "reg" -> w.w_reg <> None | "bsei" -> w.w_bsei <> None
+        | _ -> failwith ("migrate: unknown contract " ^ c)) in
+      if present then Some w else None
   | ["poke_hubstate"; ber; ser; bb; bst; lim; phb; lut; lpb] ->
       let s = { hs_ber = pn ber; hs_ser = pn ser; hs_bb = pn bb; hs_bst = pn bst; hs_lim = pn lim;
                 hs_phb = pn phb; hs_lut = pn lut; hs_lpb = pn lpb } in
